@@ -23,7 +23,11 @@ class Ref(Expression):
         return self.name
 
     def _compile(self, out, flags):
-        if flags.uses_context and not self.is_local:
+        if self.resolved.startswith('_super_ctx.'):
+            # "super.R" means the parent of the grammar that contains this
+            # reference, not the parent of the grammar we were entered through.
+            func = Code(self.resolved)
+        elif flags.uses_context and not self.is_local:
             func = Code(f'_ctx.{self.resolved}')
         else:
             func = Code(self.resolved)
